@@ -38,7 +38,11 @@ def shards(tier, seed):
                 cfgs.append({"gen": gen, "threads": nthreads, "draws": draws, "bound": bound, "start": start})
     out.append({"name": "node_aligned", "kind": "node_aligned",
                 "deltas": list(range(-6, 7)) if tier == "quick" else list(range(-16, 17))})
-    n = 12 if tier == "quick" else 14
+    out.append({"name": "callers2", "kind": "callers", "threads": 2, "dwr": False, "bound": 2,
+                "budget": 35 if tier == "quick" else 600})
+    out.append({"name": "callers2w", "kind": "callers", "threads": 2, "dwr": True, "bound": 1 if tier == "quick" else 2,
+                "budget": 35 if tier == "quick" else 600})
+    n = 11 if tier == "quick" else 14
     for i in range(n):
         out.append({"name": f"sched{i}", "kind": "sched", "cfgs": cfgs[i::n],
                     "budget": 40 if tier == "quick" else 600})
@@ -450,14 +454,131 @@ def run_node_aligned(spec):
             "coverage": {"node_aligned_cases": cases}}
 
 
+def run_callers(spec):
+    """The callers of the generators under the line-gated scheduler: two application threads in
+    Application.send_request / Node.route_request and a third thread sending a watchdog request, all on one ready
+    connection.  Every line of those functions and of the generator classes is a scheduling point; the identifiers
+    are read off the wire afterwards: hop-by-hop ids pairwise distinct on the connection, end-to-end ids node-wide."""
+    from vf.sched import Sched, SchedLock, explore, Diverged, Stuck, count_preemptions
+    from vf.simnet.world import World, REALM, app_request
+    from vf.simnet import msgs as M
+    import diameter.node.node as nm
+    import diameter.node.application as am
+    from diameter.node._helpers import SequenceGenerator
+    PEER = "peer1.verif.example"
+    wit, hashes = [], set()
+    cov = {"caller_executions": 0, "caller_diverged": 0, "caller_stuck": 0, "caller_max_preemptions": 0,
+           "caller_exhausted": False}
+    w = World(dict(peers=[{"name": PEER}], apps=[{"tag": "a4", "id": 4, "peers": [PEER]}],
+                   node={"idle_timeout": 10 ** 6, "dwa_timeout": 10 ** 6}))
+    h = w.h
+    codes = [nm.Node.route_request.__code__, am.Application.send_request.__code__, nm.Node.send_dwr.__code__] + \
+        class_codes(SequenceGenerator)
+    s = Sched(codes)
+    evals = 0
+    try:
+        w.start()
+        sp = h.inbound(ip="10.1.0.1", port=50001)
+        h.settle()
+        sp.send(M.cer(PEER, REALM, auth=[4], hbh=1, e2e=1))
+        h.settle()
+        sp.drain()
+        conn = h.conn_of(sp)
+        node, app = w.node, w.apps["a4"]
+        lock_type = type(threading.Lock())
+        for g in (conn.hop_by_hop_seq, node.end_to_end_seq):
+            for attr, val in list(vars(g).items()):
+                if isinstance(val, lock_type):
+                    setattr(g, attr, SchedLock(s, attr))
+        s.install()
+        gen = [0]
+
+        def make(prefix):
+            nonlocal evals
+            s.threads.clear()
+            s.by_ident.clear()
+            gen[0] += 1
+            seen = len(sp.frames)
+            s.active = True
+            for t in range(spec["threads"]):
+                s.spawn(t, f"app{t}", lambda t=t: app_request(app, REALM, 0.0005, {}, session=f"c;{gen[0]};{t}"))
+            if spec["dwr"]:
+                s.spawn(9, "dwr", lambda: node.send_dwr(conn))
+            try:
+                trace = s.run(prefix, max_steps=800)
+            except Diverged:
+                s.release_all()
+                cov["caller_diverged"] += 1
+                return None, None
+            except Stuck as e:
+                s.release_all()
+                cov["caller_stuck"] += 1
+                cov["caller_stuck_why"] = str(e)[:200]
+                return None, None
+            s.release_all()
+            for ct in s.threads.values():
+                ct.thread.join(5)
+            h.settle()
+            sp.drain()
+            reqs = [f for f in sp.frames[seen:] if f.is_request]
+            evals += 1
+            hb, ee = [f.h.hbh for f in reqs], [f.h.e2e for f in reqs]
+            verdict = []
+            if len(reqs) != spec["threads"] + int(spec["dwr"]):
+                verdict.append("request_missing_on_the_wire")
+            if 0 in hb or 0 in ee:
+                verdict.append("zero_identifier")
+            if len(set(hb)) != len(hb):
+                verdict.append("hop_by_hop_duplicate_on_connection")
+            if len(set(ee)) != len(ee):
+                verdict.append("end_to_end_duplicate")
+            make.last = [repr(f) for f in reqs]
+            # the watchdog answer, so that the connection stays as it was
+            for f in reqs:
+                if f.h.code == 280:
+                    sp.send(M.dwa(PEER, REALM, hbh=f.h.hbh, e2e=f.h.e2e))
+            h.settle()
+            node._app_waiting_answer.clear()
+            return trace, verdict
+
+        for prefix, trace, verdict in explore(make, spec["bound"], time_budget=spec["budget"]):
+            if trace is None:
+                continue
+            cov["caller_executions"] += 1
+            ids = tuple(c for c, _, _ in trace)
+            hashes.add(h64("callers", spec["threads"], spec["dwr"], ids))
+            cov["caller_max_preemptions"] = max(cov["caller_max_preemptions"], count_preemptions(trace))
+            if verdict:
+                if len(wit) < 5:
+                    wit.append({"key": "ids.node." + "+".join(verdict) + ".concurrent_callers",
+                                "detail": {"scenario": {k: spec[k] for k in ("threads", "dwr", "bound")},
+                                           "schedule": list(ids), "requests": make.last},
+                                "replay": {"callers": {k: spec[k] for k in ("threads", "dwr", "bound")}}})
+        cov["caller_exhausted"] = bool(getattr(explore, "exhausted", False))
+    finally:
+        try:
+            s.release_all()
+            s.uninstall()
+        finally:
+            w.teardown()
+    cov["caller_interleavings"] = len(hashes)
+    res = {"evaluations": evals, "hashes": sorted(hashes), "witnesses": wit, "samples": [], "coverage": cov}
+    if cov["caller_stuck"] + cov["caller_diverged"] > cov["caller_executions"] // 20 + 3:
+        res["inconclusive"] = (f"{spec['name']}: {cov['caller_diverged']} diverged / {cov['caller_stuck']} stuck of "
+                               f"{cov['caller_executions']}: {cov.get('caller_stuck_why')}")
+    return res
+
+
 def run_shard(spec):
     return {"sched": run_sched, "sequential": run_sequential, "stress": run_stress,
-            "node_aligned": run_node_aligned}[spec["kind"]](spec)
+            "node_aligned": run_node_aligned, "callers": run_callers}[spec["kind"]](spec)
 
 
 def replay(obj):
     if "aligned" in obj:
         return run_node_aligned({"deltas": [obj["aligned"][1]]})
+    if "callers" in obj:
+        return run_callers({"name": "replay", "budget": 60, **obj["callers"]})
     spec = {"cfgs": [obj["cfg"]], "budget": 30}
     # re-run the configuration's exploration; the recorded schedule is among its executions
     return run_sched(spec)
@@ -473,4 +594,6 @@ def finish(tier, seed, cov, evaluations):
         out.append("no execution with 2 or more preemptions")
     if cov.get("sequential_draws", 0) == 0:
         out.append("sequential sweep did not run")
+    if cov.get("caller_executions", 0) < 100:
+        out.append(f"callers of the generators: only {cov.get('caller_executions', 0)} scheduled executions")
     return out
